@@ -119,6 +119,10 @@ func pairedErr(v ssa.Value) ssa.Value {
 	case *ssa.Phi:
 		var errs []ssa.Value
 		for _, e := range x.Edges {
+			if isNilConst(e) {
+				errs = append(errs, nil) // no value on this way: any error (or none) goes with it
+				continue
+			}
 			pe := pairedErr(e)
 			if pe == nil {
 				return nil
@@ -134,10 +138,18 @@ func pairedErr(v ssa.Value) ssa.Value {
 				continue
 			}
 			match := true
+			nReal := 0
 			for i := range errs {
+				if errs[i] == nil {
+					continue
+				}
+				nReal++
 				if stripConv(ph.Edges[i]) != errs[i] {
 					match = false
 				}
+			}
+			if nReal == 0 {
+				match = false
 			}
 			if match {
 				return ph
